@@ -57,7 +57,7 @@ func c15Items(c *Ctx) []pgen.FItem {
 					continue
 				}
 				s := pgen.FSig{Mode: mode}
-				same := (np+nr+mi)%2 == 0
+				same := (np*5+nr*3+mi*7)%3 != 0 // independent of the quick-tier sampling above
 				for i := 0; i < np; i++ {
 					t := valueTypes[(np*3+nr*5+mi*7+i*2)%len(valueTypes)]
 					if same && i < 2 {
@@ -130,6 +130,11 @@ func checkC16(c *Ctx) {
 	c.Run.Rule = "items: Compose chains of 2-4 instrumented stages with 0-2 initial parameters and 0-3 intermediate / final results over value types (basic, named basic, struct, array, pointer, slice, map, interface), evaluated for every choice of the failing stage (none / each index; the failing stage returns non-zero garbage next to its error); the error forms of Fmap (f with 0,1,2,3 results) and Join (0-3 results, two-argument and tuple form) with outer / inner failure; Traverse over lists of length 0-6 (and nil) failing at every index; ToError over signatures with 0-3 passed-through results. Oracle: stage call logs (each stage once, in order, with the previous results as arguments, none after the failing one), returned error identical (==) to the injected object, non-error results are zero values (nil slice for Traverse), success path equal to the hand-written composition. distinct_nontrivial = distinct (helper shape, failing-position class)"
 	c.Run.Assume = []string{"stages are deterministic in their arguments"}
 	c.Run.Floor = 30
+	outs := c.runFuncBatches(c16Items(c), 20, true, tierN(c, 4, 10))
+	c.judgeFuncOutcomes(outs, true)
+}
+
+func c16Items(c *Ctx) []pgen.FItem {
 	r := rand.New(rand.NewSource(c.Seed*401 + 5))
 	types := []string{"int", "string", "bool", "float64", "NInt", "NStr", "SV", "*SV", "[]int", "map[string]int", "Arr", "[2]int", "any", "SP"}
 	var items []pgen.FItem
@@ -205,14 +210,18 @@ func checkC16(c *Ctx) {
 		seen[sigKey("toerror", s.P, s.R)] = true
 		items = append(items, pgen.ToErrorItem(id(), s))
 	}
-	outs := c.runFuncBatches(items, 20, true, tierN(c, 4, 10))
-	c.judgeFuncOutcomes(outs, true)
+	return items
 }
 
 func checkC17(c *Ctx) {
 	c.Anchors = []string{"plugin/fmap", "plugin/join"}
 	c.Run.Rule = "items: Fmap over slices for (element, result) type pairs with lists of length 0-9 and nil (spare capacity present); Fmap over strings for result types with 20 strings (empty, ASCII, 2/3/4-byte runes, mixed, truncated and invalid encodings, NUL); Join of slices of slices with outer length 0-5 and nil, inner lists nil / empty / 1-3 elements in 4 layouts; Join of string lists. Oracle: output length (in runes for strings), out[i] == f(in[i]) against a direct call, f's call log == the input in order, concatenation for Join (nil for nil), canonical encoding of the inputs unchanged. distinct_nontrivial = distinct (helper, types, length/encoding class)"
 	c.Run.Floor = 20
+	outs := c.runFuncBatches(c17Items(c), 20, true, 8)
+	c.judgeFuncOutcomes(outs, true)
+}
+
+func c17Items(c *Ctx) []pgen.FItem {
 	r := rand.New(rand.NewSource(c.Seed*409 + 7))
 	types := []string{"int", "string", "bool", "float64", "NInt", "SV", "*SV", "[]int", "map[string]int", "Arr", "any", "SP", "rune"}
 	var items []pgen.FItem
@@ -244,8 +253,7 @@ func checkC17(c *Ctx) {
 		items = append(items, pgen.JoinSliceItem(id(), a, false))
 	}
 	items = append(items, pgen.JoinSliceItem(id(), "", true))
-	outs := c.runFuncBatches(items, 20, true, 8)
-	c.judgeFuncOutcomes(outs, true)
+	return items
 }
 
 func checkC18(c *Ctx) {
@@ -253,6 +261,11 @@ func checkC18(c *Ctx) {
 	c.Run.Rule = "items: deriveMem over signatures with 0-3 parameters x 0-3 results over ==-comparable (int, string, bool, float64, named basics, struct, array) and non-comparable (slice, pointer, map, struct with pointers, slices of slices / structs) types, all naming modes; per item a call sequence of 4N steps over 7 argument vectors, so arguments repeat as fresh Equal-but-not-identical copies, including vectors that collide under the derived 31-fold hash ({0,31}/{1,0}, \"Aa\"/\"BB\") and +0/-0. Oracle: every result equals a direct call; at every prefix of the sequence the instrumented function's call count is at most the number of distinct (canonically encoded = Equal) argument tuples seen so far. distinct_nontrivial = distinct (signature shape, check class)"
 	c.Run.Assume = []string{"the instrumented function is deterministic"}
 	c.Run.Floor = 20
+	outs := c.runFuncBatches(c18Items(c), 20, true, tierN(c, 8, 16))
+	c.judgeFuncOutcomes(outs, true)
+}
+
+func c18Items(c *Ctx) []pgen.FItem {
 	r := rand.New(rand.NewSource(c.Seed*419 + 9))
 	var items []pgen.FItem
 	seen := map[string]bool{}
@@ -294,6 +307,5 @@ func checkC18(c *Ctx) {
 	add(pgen.FSig{P: []string{"[]string"}, R: []string{"string"}, Mode: "named"})
 	add(pgen.FSig{P: []string{"*SV"}, R: []string{"int"}, Mode: "named"})
 	add(pgen.FSig{P: []string{"*SV", "int"}, R: []string{"int"}, Mode: "named"})
-	outs := c.runFuncBatches(items, 20, true, tierN(c, 8, 16))
-	c.judgeFuncOutcomes(outs, true)
+	return items
 }
